@@ -156,7 +156,8 @@ def gen_case(rng, n_sent=1, nbest=None, family=None, max_n=6, sparse=False, head
         ncat = rng.randint(70, 140)
         dens = rng.choice((0.05, 0.1, 0.2))
     g, hl = synth.random_grammar(rng, ncat, ntags, head_left=head_left, density=dens,
-                                 max_results=2 if sparse else rng.choice((3, 3, 4)), mixed_heads=mixed_heads)
+                                 max_results=2 if sparse else rng.choice((3, 3, 4)), mixed_heads=mixed_heads,
+                                 fat=many_cats and rng.random() < 0.5)
     cats = [synth.SCat(i) for i in range(ntags)]
     nroots = rng.choice((1, 2, ncat // 2 + 1, ncat)) if rng.random() > 0.03 else 0      # rarely: no allowed root at all
     roots = [synth.SCat(i) for i in rng.sample(range(ncat), nroots)]
